@@ -136,6 +136,8 @@ def specs_masks(tier):
         cfg += [("none", 1, None), ("tuple", 3, None), ("dict", 1, True), ("tuple", 4, False)]
     s = [(BM, "unit_masks", {"variant": v, "nb": nb, "hermitian": h, "timeout_ms": t}) for v, nb, h in cfg]
     s.append((BM, "unit_masks", {"variant": "tuple", "nb": 2, "hermitian": None, "timeout_ms": t, "canary": True}))
+    # operator-valued masks of second-quantized Hamiltonians (the `else:` branch of the same statement)
+    s += [(BM, "unit_masks_operators", {"variant": v, "hermitian": h, "timeout_ms": t}) for v, h in (("dict", True), ("dict", False), ("tuple", True))]
     return s
 
 
